@@ -10,7 +10,7 @@
    evaluated on the implementation in exact rational arithmetic (lib/p_C10.py). *)
 From SV Require Import Ops LinAlg BK.
 From mathcomp Require Import all_ssreflect all_algebra.
-From SV Require Import OpsF BKPf BKElim BKPerm.
+From SV Require Import OpsF BKPf BKElim BKPerm BKPermOk.
 Set Implicit Arguments. Unset Strict Implicit. Unset Printing Implicit Defensive.
 Import GRing.Theory Num.Theory.
 Local Open Scope ring_scope.
@@ -121,6 +121,19 @@ Theorem C10_solve_permutation_bracket : forall (o : Ops) (n : nat) (pm : list Bi
     (List.fold_left (fun x pr => vswap o x (fst pr) (snd pr)) (permc pm) x) = x.
 Proof. by move=> o n pm x sx ok; apply: bk_solve_permutation_bracket; rewrite sx; apply: permc_in_range. Qed.
 Print Assumptions C10_solve_permutation_bracket.
+
+(* ... and every permutation vector the compute() model can produce is of that form: for every scalar instance, order, input,
+   triangle and shift - so the bracket holds after every factorization, with no side condition left *)
+Theorem C10_compute_permutation_wellformed : forall (o : Ops) (alpha : T o) (n : nat) (src : list (list (T o))) (uplo : bool) (shift : T o),
+  perm_ok n (perm o (bk_compute o alpha n src uplo shift)).
+Proof. move=> o alpha n src uplo shift; exact: bk_compute_perm_ok. Qed.
+Print Assumptions C10_compute_permutation_wellformed.
+
+Theorem C10_solve_permutation_bracket_after_compute : forall (o : Ops) (alpha : T o) (n : nat) (src : list (list (T o))) (uplo : bool) (shift : T o) (x : list (T o)),
+  size x = n -> let pc := permc (perm o (bk_compute o alpha n src uplo shift)) in
+  List.fold_left (fun x pr => vswap o x (fst pr) (snd pr)) (List.rev pc) (List.fold_left (fun x pr => vswap o x (fst pr) (snd pr)) pc x) = x.
+Proof. by move=> o alpha n src uplo shift x sx; apply: (@C10_solve_permutation_bracket o n) => //; apply: bk_compute_perm_ok. Qed.
+Print Assumptions C10_solve_permutation_bracket_after_compute.
 
 (* one interchange moves exactly the two named entries (what the sweeps between the two passes see) *)
 Theorem C10_interchange_entries : forall (o : Ops) (x : list (T o)) (i j k : nat), (i < size x)%N -> (j < size x)%N ->
